@@ -50,6 +50,7 @@ type Spec struct {
 
 // Event is one line of the event log.
 type Event struct {
+	Seq  int    `json:"q"`
 	Step int    `json:"s"`
 	Task string `json:"t"`
 	Op   string `json:"op"`
@@ -113,6 +114,7 @@ type World struct {
 	cur     *task
 	main    *task
 	step    int
+	evSeq   int
 	budget  int
 	now     int64
 	timers  []*timer
@@ -253,7 +255,8 @@ func (w *World) logEvent(op, obj string) {
 		}
 	}
 	w.logHash = h
-	ev := Event{w.step, t, op, obj}
+	w.evSeq++
+	ev := Event{w.evSeq, w.step, t, op, obj}
 	if w.Spec.KeepLog {
 		w.Res.Log = append(w.Res.Log, ev)
 	} else {
